@@ -465,7 +465,11 @@ func (c *Cluster) LocalTimeout(a *Actor) {
 	if a.Node == nil || a.Crashed {
 		return
 	}
-	v := a.Node.VS.View()
+	// the event carries the view the pending timer was started for - normally the current view
+	v := a.Node.TimerView()
+	if v != a.Node.VS.View() {
+		c.Mon.Obs["timers_carrying_a_stale_view"]++
+	}
 	c.trace(TraceEntry{Kind: "timeout", To: a.Name(), View: uint64(v)})
 	c.Timeouts++
 	c.cmd.ensure(a)
